@@ -31,7 +31,10 @@ LEVEL_TEXT = (
     "far above, per syntactic position, under equal and unequal limit sets) through the real parsers, delivered whole, "
     "byte-by-byte and in pieces. Checked: only HTTP protocol errors leave the parser (server: 4xx + no exception in the "
     "loop; client caller: ClientError subclass), limits accept/refuse on the right side, bytes retained by the parser "
-    "after every delivery stay within what the limits allow, no hang, and executed parser lines grow at most linearly."
+    "after every delivery stay within what the limits allow, no hang, and executed parser lines grow at most linearly. "
+    "Request targets of every form and method (authority components on both sides of their value ranges) must be handled "
+    "or refused with a 4xx, the connection's task never ending with an exception; unterminated lines are also made "
+    "over-long by runs of CR, whitespace and control bytes, in reads of several sizes."
 )
 LEVEL_NOTE = (
     "Trusted: ref/http1.py with limits for the accept/refuse verdict (bands where aiohttp counts differently from the "
@@ -48,6 +51,14 @@ RULE = (
     "code, version - of 1 .. 3 x max_line_size digits, and messages cut at a seeded byte; the exception type leaving "
     "either call or stored on a body stream is judged). Approach positions include obs-folded header / trailer fields "
     "of the lax response parser (every physical line under the limits, the joined field around max_field_size). "
+    "'targets' (7 %): twelve complete requests whose request line combines a method (GET, CONNECT, OPTIONS, ... in either "
+    "case) with a request-target of every form (origin, absolute, authority, asterisk, near misses) built per element - "
+    "userinfo, host (names, IPv4/IPv6 literals, malformed brackets, non-ASCII, over-long labels), port (none, 0, 65535, "
+    "65536, far above, negative, signed, non-numeric, non-ASCII digits, empty) - through the real server: each must reach "
+    "the handler or be refused with a 4xx, and the task serving the connection must not end with an exception. "
+    "'drip' variants (7 %): the unterminated line (request / status line, field, chunk-size line, trailer, both parsers) "
+    "is over-long because of a run of one filler - CR, SP, HTAB, NUL, 0xFF, DEL, ';', VT/FF or a short pattern of them, "
+    "never LF - after 0, 1 or limit-4 ordinary bytes, delivered in reads of 1, 7, 64 bytes or at once (the last byte always alone). "
     "Non-trivial: at least one rejection or limit decision was exercised. "
     "Distinct = (kind, position, limits, signature)."
 )
@@ -60,7 +71,9 @@ ASSUMPTIONS = [
     "field length is measured on the whole field line; inputs whose value alone is within the limit but whose line is "
     "not are a DONT_CARE band; likewise header counts between max_headers-2 and max_headers",
     "retained-bytes bound: max_line_size + max_headers*max_field_size + 2 reads + 4 KiB for a header block; limit + 2 "
-    "reads + 256 for a single incomplete line",
+    "reads + 256 for a single incomplete line (a read counts as at least 64 bytes)",
+    "a complete, short request sent alone on a connection is either dispatched to the handler or refused with a 4xx within "
+    "0.5 s of virtual time; the connection's task (RequestHandler._task_handler) ending with an exception is an escape",
 ]
 
 _STATUS = re.compile(rb"HTTP/1\.[01] (\d{3}) ")
@@ -279,6 +292,73 @@ def _gen_direct(rng):
     return {"kind": "direct", "family": "eofcut", "limits": lim, "cases": cases}
 
 
+# Request targets: every form of RFC 9112 section 3.2 (origin, absolute, authority, asterisk) and near misses, under every
+# kind of method.  The authority components are drawn per element (userinfo, host, port) from legal values, the edges of
+# their value ranges and malformed spellings, so that whatever the parser delegates to the URL library - eagerly or
+# lazily - is reached with values on both sides of every boundary.
+_T_METHODS = ["GET", "GET", "GET", "CONNECT", "CONNECT", "CONNECT", "OPTIONS", "POST", "HEAD", "PUT", "connect", "Connect",
+              "get", "M-SEARCH", "PROPFIND"]
+_T_SCHEMES = ["http", "http", "https", "HTTP", "ws", "ftp", "h2c", "x"]
+_T_USERINFO = ["", "", "", "", "u@", "u:p@", "@", ":@", "u%40x@"]
+_T_HOSTS = ["example.com", "example.com", "h.test", "a", "127.0.0.1", "[::1]", "[2001:db8::1]", "[::ffff:1.2.3.4]",
+            "[fe80::1%25eth0]", "[::1", "::1", "[zz]", "[]", "[v1.x]", "", "ex%41mple.com", "ex\xe4mple.com",
+            "\xc3\xa4.test", "xn--bcher-kva.test", "a" * 70 + ".test", "l." * 130 + "test", "-", ".", "a..b", "999.999.999.999",
+            "0x7f.1", "host_name", "EXAMPLE.COM", "a b", "a\tb", "%", "%zz", "a,b", "a;b", "*"]
+_T_PORTS = [None, None, None, "80", "443", "8080", "0", "1", "65535", "65536", "65537", "99999", "100000", "4294967296",
+            "-1", "-0", "+80", "abc", "8o", "0x50", "", "080", "0000000080", "9" * 30, "8_0", "1e3", "80:81", "80 ", ".80",
+            "\xd9\xa8\xd9\xa0", "\xef\xbc\x98\xef\xbc\x90", "\xb2", "%38%30", "80#f", "80?q"]
+_T_PATHS = ["", "", "/", "/p?q=1#f", "?q", "#f", "/\xe4", "/%zz"]
+
+
+def _gen_authority(rng):
+    port = rng.choice(_T_PORTS)
+    return rng.choice(_T_USERINFO) + rng.choice(_T_HOSTS) + ("" if port is None else ":" + port)
+
+
+def _gen_target(rng):
+    """[method, request-target] (latin-1 str of the bytes on the wire)."""
+    method = rng.choice(_T_METHODS)
+    q = rng.random()
+    if method.upper() == "CONNECT":
+        form = "authority" if q < 0.7 else ("absolute" if q < 0.8 else ("origin" if q < 0.9 else "other"))
+    else:
+        form = "absolute" if q < 0.5 else ("authority" if q < 0.65 else ("origin" if q < 0.8 else ("asterisk" if q < 0.88 else "other")))
+    if form == "authority":
+        t = _gen_authority(rng)
+    elif form == "absolute":
+        t = rng.choice(_T_SCHEMES) + "://" + _gen_authority(rng) + rng.choice(_T_PATHS)
+    elif form == "origin":
+        t = rng.choice(["/", "/p?q=1", "//example.com:99999/x", "/:80", "/http://a:b/", "/\xff", "/%", "/a#f?q"])
+    elif form == "asterisk":
+        t = "*"
+    else:
+        t = rng.choice(["", "p", "?q", "#f", "http:", "http:/", "http://", "http:///p", "://a", "//" + _gen_authority(rng) + "/p",
+                        "http:" + _gen_authority(rng), ":80", "@", "[", "]", "a:b:c", "\x00", "\xff:\xff"])
+    return [method, t]
+
+
+def _gen_targets(rng):
+    lim = dict(LIMIT_SETS[3] if rng.random() < 0.7 else rng.choice(LIMIT_SETS[:3] + LIMIT_SETS[4:]))
+    cases = []
+    for _ in range(12):
+        m, t = _gen_target(rng)
+        cases.append([m, t, rng.choice(["HTTP/1.1", "HTTP/1.1", "HTTP/1.1", "HTTP/1.0"])])
+    return {"kind": "targets", "cases": cases, "limits": lim,
+            "policy": rng.choice(["whole", "whole", "byte", "small", "after_cr"]), "read_bufsize": rng.choice([65536, 8])}
+
+
+# Unterminated lines: what the excess bytes of a line that never ends are made of (the filler) and how they arrive
+DRIP2_WHATS = ["request_line", "field", "chunk_size_line", "trailer", "status_line", "resp_field", "resp_chunk_size_line",
+               "resp_trailer"]
+DRIP_FILLS = ["\r", "\r", "\r", " ", "\t", "\x00", "\xff", "\x7f", ";", "v\r", "\r ", "\r\r\rv", " \t", "\x0b\x0c"]
+
+
+def _gen_drip2(rng):
+    return {"kind": "drip", "what": rng.choice(DRIP2_WHATS), "limits": dict(rng.choice(LIMIT_SETS[:3] + LIMIT_SETS[4:])),
+            "extra": rng.choice([50, 400, 3000]), "fill": rng.choice(DRIP_FILLS), "lead": rng.choice(["none", "one", "near_limit"]),
+            "read": rng.choice([1, 1, 7, 64, "whole"])}
+
+
 def gen(rng, tier, index):
     r0 = rng.random()
     if r0 < 0.07:
@@ -287,6 +367,10 @@ def gen(rng, tier, index):
         return {"kind": "approach", "position": rng.choice(FOLDED_POSITIONS),
                 "limits": dict(rng.choice(LIMIT_SETS[:3] + LIMIT_SETS[4:])), "read_bufsize": rng.choice([65536, 16]),
                 "fold_pieces": rng.choice([2, 3, 4, 7])}
+    if r0 < 0.19:
+        return _gen_targets(rng)
+    if r0 < 0.26:
+        return _gen_drip2(rng)
     r = rng.random()
     if r < 0.40:
         pos = rng.choice(POSITIONS)
@@ -342,6 +426,24 @@ def shrink(scn):
     if scn["kind"] == "caller" and len(scn["garbage"]) > 1:
         for i in range(len(scn["garbage"])):
             yield dict(scn, garbage=[scn["garbage"][i]])
+    if scn["kind"] == "targets":
+        if len(scn["cases"]) > 1:
+            for c in scn["cases"]:
+                yield dict(scn, cases=[c])
+        if scn["policy"] != "whole":
+            yield dict(scn, policy="whole")
+        if scn["read_bufsize"] != 65536:
+            yield dict(scn, read_bufsize=65536)
+    if scn["kind"] == "drip" and "fill" in scn:
+        if scn["read"] != 1:
+            yield dict(scn, read=1)
+        if scn["lead"] != "none":
+            yield dict(scn, lead="none")
+        if scn["extra"] != 50:
+            yield dict(scn, extra=50)
+        if len(scn["fill"]) > 1:
+            for c in sorted(set(scn["fill"])):
+                yield dict(scn, fill=c)
     if scn["kind"] == "approach" and scn.get("fold_pieces", 2) > 2:
         yield dict(scn, fold_pieces=2)
     if scn["kind"] == "direct" and scn["family"] == "numeric":
@@ -509,12 +611,25 @@ class Ctx:
         recs = self.by_conn.pop(cid, [])
         statuses = [int(x) for x in _STATUS.findall(bytes(cl.received))]
         out = {"recs": recs, "statuses": statuses, "closed": str_._closed or str_._closing,
-               "exc": list(loop.exc_contexts), "fatal": list(net.fatal_errors), "capped": loop.capped == "steps"}
+               "exc": list(loop.exc_contexts), "fatal": list(net.fatal_errors), "capped": loop.capped == "steps",
+               "answered": bool(cl.received)}
+        # the task serving this connection must not have ended with an exception (nobody awaits it: the failure would
+        # only show as 'Task exception was never retrieved' when the connection object is finally dropped)
+        th = getattr(str_.protocol, "_task_handler", None)
+        if isinstance(th, asyncio.Future) and th.done() and not th.cancelled() and th.exception() is not None:
+            out["task_exc"] = th.exception()
         loop.exc_contexts.clear()
         net.fatal_errors.clear()
         if not ctr._closed:
             ctr.abort()
         loop.run_sim(None, vt_cap=loop.time() + 0.01, step_cap=loop.steps + 50_000)
+        # whatever the teardown of this connection reports belongs to this connection, not to the next one
+        if loop.exc_contexts:
+            out["exc"] = out["exc"] + list(loop.exc_contexts)
+            loop.exc_contexts.clear()
+        if net.fatal_errors:
+            out["fatal"] = out["fatal"] + list(net.fatal_errors)
+            net.fatal_errors.clear()
         return out
 
     def client_once(self, data: bytes, policy, eof=True, after_each=None):
@@ -582,6 +697,12 @@ class Ctx:
 
 
 def _escape_violation(out, where, violate, what):
+    if out.get("task_exc") is not None:
+        e = out["task_exc"]
+        violate("only_protocol_errors", f"{where}:connection_task_died:{type(e).__name__}@{_aio_frame(e)}",
+                f"{what}: the task serving the connection ended with {type(e).__name__}: {str(e)[:160]!r} (not an HTTP "
+                f"protocol error; the peer got {'an answer' if out.get('answered') else 'no answer'})")
+        return True
     if out.get("exc") and isinstance(out["exc"], list) and out["exc"]:
         c = out["exc"][0]
         violate("only_protocol_errors", f"{where}:loop_exception:{c['exc_type']}@{c.get('frame')}",
@@ -705,8 +826,14 @@ def run(scn, ch, log=False):
             from aiohttp.streams import StreamReader
             L, F, H = lim["max_line_size"], lim["max_field_size"], lim["max_headers"]
             what = scn["what"]
-            n = (L if what in ("request_line", "chunk_size_line", "status_line") else F) + scn["extra"]
-            if what == "request_line":
+            n = (L if what in ("request_line", "chunk_size_line", "status_line", "resp_chunk_size_line") else F) + scn["extra"]
+            if "fill" in scn:
+                # the line never ends; its excess is made of the scenario's filler (no LF), after `lead` ordinary bytes
+                head, ch0, side, bound = _DRIP_PREFIX[what]
+                bound = {"L": L, "F": F, "LF": max(L, F)}[bound]
+                lead = {"none": 0, "one": 1, "near_limit": max(0, n - scn["extra"] - 4)}[scn["lead"]]
+                s = head + ch0 * lead + (scn["fill"] * (n // len(scn["fill"]) + 1))[:n - lead]
+            elif what == "request_line":
                 side, s, bound = "server", "GET /" + "a" * n, L
             elif what == "field":
                 side, s, bound = "server", "GET / HTTP/1.1\r\nHost: a\r\nX: " + "v" * n, max(L, F)
@@ -720,8 +847,16 @@ def run(scn, ch, log=False):
                 side, s, bound = "client", "HTTP/1.1 200 " + "R" * n, L
             else:
                 side, s, bound = "client", "HTTP/1.1 200 OK\r\nX: " + "v" * n, max(L, F)
+            data = G.enc(s)
+            read = scn.get("read", 1)
+            # the last byte always arrives alone: a parser that judges what it retained when the next read arrives (the
+            # 'one read' of latitude) gets a read after the line has exceeded its limit
+            if read == "whole":
+                policy, rsize = [len(data) - 1], len(data)
+            else:
+                policy, rsize = sorted(set(range(read, len(data), read)) | {len(data) - 1}), read
             block_bound = L + H * F + 2 * 64 + 4096
-            line_bound = None if bound is None else bound + 2 * 64 + 256
+            line_bound = None if bound is None else bound + 2 * max(64, rsize) + 256
             state = {"max": 0}
 
             def after(proto):
@@ -732,21 +867,53 @@ def run(scn, ch, log=False):
                 if r > state["max"]:
                     state["max"] = r
 
-            data = G.enc(s)
-            policy = list(range(1, len(data)))
             out = ctx.server_once(data, policy, after_each=after) if side == "server" else ctx.client_once(data, policy, eof=False, after_each=after)
             nontrivial = True
             probes["drip_max_retained"] = state["max"]
+            if "fill" in scn:
+                probes["drip_filler_runs"] = 1
             if not _escape_violation(out, side, violate, f"drip {what}"):
                 lim_b = line_bound if line_bound is not None else block_bound
                 if state["max"] > lim_b:
                     violate("retained_bounded", f"retained_over_bound:{what}",
-                            f"drip-fed {what}: parser retained {state['max']} bytes, bound {lim_b} under limits {lim}")
+                            f"drip-fed {what}: parser retained {state['max']} bytes, bound {lim_b} under limits {lim}"
+                            + _drip_desc(scn, data))
                 rejected = (("ERR" in out["recs"] or any(r.startswith("PAYLOAD_ERR") for r in out["recs"])) if side == "server"
                             else (out["exc"] is not None or any(r.startswith("PAYLOAD_ERR") for r in out["recs"])))
                 if not rejected:
                     violate("limit_enforced", f"drip_not_rejected:{what}",
-                            f"drip-fed over-long {what} ({len(data)} bytes, limits {lim}) was never rejected: {out['recs']}")
+                            f"drip-fed over-long {what} ({len(data)} bytes, limits {lim}) was never rejected: {out['recs']}"
+                            + _drip_desc(scn, data))
+        elif kind == "targets":
+            lim = scn["limits"]
+            ctx = Ctx(w, lim, scn["read_bufsize"])
+            ctx.start_server()
+            for method, target, version in scn["cases"]:
+                s = f"{method} {target} {version}\r\nHost: a\r\n\r\n"
+                what = f"request line {method + ' ' + target + ' ' + version!r}"
+                out = ctx.server_once(G.enc(s), scn["policy"])
+                probes["target_cases"] = probes.get("target_cases", 0) + 1
+                if _escape_violation(out, "server", violate, what):
+                    break
+                if out["capped"]:
+                    violate("no_hang", "server:step_cap", f"server did not settle on {what}")
+                    break
+                if "ERR" in out["recs"]:
+                    nontrivial = True
+                    probes["target_rejections"] = probes.get("target_rejections", 0) + 1
+                    if not out["statuses"] or not 400 <= out["statuses"][-1] < 500:
+                        violate("parser_error_is_4xx", "server:parser_error_without_4xx",
+                                f"parser error on {what} but statuses={out['statuses']}")
+                        break
+                elif "REQ" in out["recs"]:
+                    probes["target_accepted"] = probes.get("target_accepted", 0) + 1
+                else:
+                    # one complete request was delivered: the parser yields a message (the handler is entered) or a
+                    # protocol error (answered 400); neither means the request went nowhere
+                    violate("no_hang", "server:complete_request_neither_handled_nor_refused",
+                            f"{what} (complete request, {scn['policy']} delivery) neither reached the handler nor was refused: "
+                            f"statuses={out['statuses']} closed={out['closed']}")
+                    break
         elif kind == "work":
             nontrivial = True
             counts = []
@@ -772,6 +939,27 @@ def run(scn, ch, log=False):
         if log:
             res["event_log"] = w.loop.event_log[-100:]
         return res
+
+
+_CH = "Transfer-Encoding: chunked\r\n\r\n"
+# what -> (bytes before the unterminated line, ordinary byte of that line, side, limit that applies: L line, F field)
+_DRIP_PREFIX = {
+    "request_line": ("GET /", "a", "server", "L"),
+    "field": ("GET / HTTP/1.1\r\nHost: a\r\nX: ", "v", "server", "LF"),
+    "chunk_size_line": ("POST / HTTP/1.1\r\nHost: a\r\n" + _CH, "0", "server", "L"),
+    "trailer": ("POST / HTTP/1.1\r\nHost: a\r\n" + _CH + "0\r\nT: ", "v", "server", "LF"),
+    "status_line": ("HTTP/1.1 200 ", "R", "client", "L"),
+    "resp_field": ("HTTP/1.1 200 OK\r\nX: ", "v", "client", "LF"),
+    "resp_chunk_size_line": ("HTTP/1.1 200 OK\r\n" + _CH, "0", "client", "L"),
+    "resp_trailer": ("HTTP/1.1 200 OK\r\n" + _CH + "0\r\nT: ", "v", "client", "LF"),
+}
+
+
+def _drip_desc(scn, data):
+    if "fill" not in scn:
+        return ""
+    return (f"; the line's excess bytes are a run of {scn['fill']!r} after {scn['lead']} ordinary byte(s), delivered in reads of "
+            f"{scn['read']} byte(s); last bytes {bytes(data[-12:])!r}")
 
 
 def _work(w, family, n):
@@ -993,6 +1181,12 @@ def _caller(w, scn, violate, probes):
 
 def oracle_selftest():
     http1.selftest()
+    assert sorted(_DRIP_PREFIX) == sorted(DRIP2_WHATS) and not any("\n" in f for f in DRIP_FILLS)
+    rr = random.Random(5)
+    tt = [_gen_target(rr) for _ in range(400)]
+    assert all("\n" not in t and "\r" not in t for _m, t in tt)
+    assert any(m.upper() == "CONNECT" and re.fullmatch(r"[a-z.]+:\d+", t) for m, t in tt)
+    assert any("://" in t for _m, t in tt) and any(t == "*" for _m, t in tt)
     lim = LIMIT_SETS[0]
     assert expected("field", 64, lim) == "accept" and expected("field", 65, lim) == "band" and expected("field", 68, lim) == "reject"
     assert expected("request_line", 65, lim) == "reject" and expected("header_count", 9, lim) == "reject"
